@@ -628,6 +628,42 @@ impl<T: Config> P2PSession<T> {
         self.player_reg.num_spectators()
     }
 
+    /// Verification hook: the session's view of every player's connection status.
+    #[cfg(feature = "verif-hooks")]
+    pub fn verif_connect_status(&self) -> Vec<(bool, Frame)> {
+        self.local_connect_status
+            .iter()
+            .map(|s| (s.disconnected, s.last_frame))
+            .collect()
+    }
+
+    /// Verification hook: sizes of all internal buffers.
+    #[cfg(feature = "verif-hooks")]
+    pub fn verif_sizes(&self) -> crate::verif::P2PSizes {
+        let mut remotes: Vec<_> = self
+            .player_reg
+            .remotes
+            .iter()
+            .map(|(a, e)| (format!("{a:?}"), e.verif_info()))
+            .collect();
+        remotes.sort_by(|a, b| a.0.cmp(&b.0));
+        let mut spectators: Vec<_> = self
+            .player_reg
+            .spectators
+            .iter()
+            .map(|(a, e)| (format!("{a:?}"), e.verif_info()))
+            .collect();
+        spectators.sort_by(|a, b| a.0.cmp(&b.0));
+        crate::verif::P2PSizes {
+            event_queue: self.event_queue.len(),
+            pending_local_inputs: self.pending_local_inputs.len(),
+            outgoing_local_inputs: self.outgoing_local_inputs.len(),
+            local_checksum_history: self.local_checksum_history.len(),
+            remotes,
+            spectators,
+        }
+    }
+
     fn register_local_inputs(&mut self) {
         for handle in self.player_reg.local_player_handles() {
             let player_input = *self
